@@ -1,7 +1,7 @@
 SPECIFICATION ASpec
-CONSTANT MaxAuth = 2
+CONSTANT MaxAuth = 3
 CONSTANT MaxLen = 3
-CONSTANT Rich = TRUE
+CONSTANT Rich = FALSE
 INVARIANT ATypeOK
 INVARIANT AStateAgrees
 INVARIANT AUnfilteredEverywhere
